@@ -71,25 +71,57 @@ func checkC15(c *Ctx) {
 	{
 		fl := NewFlow(p, add)
 		n := 0
-		eachInstr(add, func(in ssa.Instruction) {
+		// (the append may sit in a private helper that reports whether it appended: `if c.accept(cmd) && c.hasFullBatch() { signal }`)
+		for _, d := range deepInstrs(fl, func(in ssa.Instruction) bool {
 			st, ok := in.(*ssa.Store)
 			if !ok {
-				return
+				return false
 			}
 			fa, ok := st.Addr.(*ssa.FieldAddr)
-			if !ok || fieldName(fa.X.Type(), fa.Field) != kCC+"cache" || !strings.HasPrefix(fl.K.Key(st.Val), "builtin append(") {
-				return
+			return ok && fieldName(fa.X.Type(), fa.Field) == kCC+"cache"
+		}, 0) {
+			in := d.Instr
+			st := in.(*ssa.Store)
+			if !strings.HasPrefix(d.Key(st.Val), "builtin append(") {
+				continue
 			}
 			n++
-			w := cfgSearch(fl, in, nil, isUnlockOrRet, isSignal, notFullEdge)
+			from, closed := in, notFullEdge
+			if len(d.Path) > 0 {
+				// from the helper's call in Add; its `false` verdict means nothing was appended when no `false`
+				// return of the helper can follow the append
+				vc, isCall := d.Path[0].(*ssa.Call)
+				from = d.Path[0]
+				if isCall && len(d.Path) == 1 && types.Identical(vc.Type(), types.Typ[types.Bool]) {
+					falseAfter := reachAvoid(in, func(x ssa.Instruction) bool {
+						r, ok := x.(*ssa.Return)
+						return ok && !isBoolConst(retValue(r, 0), true)
+					}, func(ssa.Instruction) bool { return false })
+					if falseAfter == nil {
+						vk := fl.K.Key(vc)
+						closed = func(fs []Fact) bool {
+							if notFullEdge(fs) {
+								return true
+							}
+							for _, f := range fs {
+								if f.Op == "false" && f.L == vk {
+									return true
+								}
+							}
+							return false
+						}
+					}
+				}
+			}
+			w := cfgSearch(fl, from, nil, isUnlockOrRet, isSignal, closed)
 			c.Check(w == nil, "C15.2", "Add: lengthening the cache is followed by the ready signal when a full batch is present", p.InstrPos(in),
 				"every path from the append to the end of the critical section either calls signalReady or takes the !hasFullBatch() edge",
 				"path from the append to "+posOf(p, w)+" with a possibly full batch and no ready signal: a waiting Get is never woken")
-			facts := fl.At(in)
+			facts := d.Facts
 			okDup := falseOf(facts, func(k string) bool { return strings.HasPrefix(k, kCCDup+"p1)") })
 			c.Check(okDup, "C15.4", "Add: duplicates are refused", p.InstrPos(in),
 				"the append is reached only under !isDuplicate(cmd)", "append reachable for a command at or below the proposed sequence number; facts: "+join(facts.Sorted()))
-		})
+		}
 		if n == 0 {
 			c.Unresolved("C15.2", "Add", "no append to cache")
 		}
